@@ -21,8 +21,12 @@ type codecType struct {
 	draw   func(g *gen.G) any
 	encode func(v any, w io.Writer) error
 	decode func(r io.Reader) (any, error)
-	equal  func(a, b any) string // "" when bit-identical, else what differs
-	use    func(v any, pts []s2.Point, cells []s2.Cell) Ans
+	// decode2 decodes r1 and then r2 into the SAME receiver and returns what the receiver holds
+	// after the second Decode (a receiver that already holds a value must end up holding exactly
+	// the second one)
+	decode2 func(r1, r2 io.Reader) (any, error)
+	equal   func(a, b any) string // "" when bit-identical, else what differs
+	use     func(v any, pts []s2.Point, cells []s2.Cell) Ans
 }
 
 func f64(x float64) uint64 { return math.Float64bits(x) }
@@ -171,6 +175,12 @@ var codecs = []*codecType{
 		draw:   func(g *gen.G) any { return g.Point() },
 		encode: func(v any, w io.Writer) error { return v.(s2.Point).Encode(w) },
 		decode: func(r io.Reader) (any, error) { var p s2.Point; err := p.Decode(r); return p, err },
+		decode2: func(r1, r2 io.Reader) (any, error) {
+			var p s2.Point
+			_ = p.Decode(r1)
+			err := p.Decode(r2)
+			return p, err
+		},
 		equal: func(a, b any) string {
 			if !eqPoint(a.(s2.Point), b.(s2.Point)) {
 				return "coordinates differ"
@@ -204,6 +214,12 @@ var codecs = []*codecType{
 		},
 		encode: func(v any, w io.Writer) error { return v.(s2.Cap).Encode(w) },
 		decode: func(r io.Reader) (any, error) { var c s2.Cap; err := c.Decode(r); return c, err },
+		decode2: func(r1, r2 io.Reader) (any, error) {
+			var c s2.Cap
+			_ = c.Decode(r1)
+			err := c.Decode(r2)
+			return c, err
+		},
 		equal: func(a, b any) string {
 			x, y := a.(s2.Cap), b.(s2.Cap)
 			if !eqPoint(x.Center(), y.Center()) || f64(float64(x.Radius())) != f64(float64(y.Radius())) || f64(x.Height()) != f64(y.Height()) {
@@ -246,6 +262,12 @@ var codecs = []*codecType{
 		},
 		encode: func(v any, w io.Writer) error { return v.(s2.Rect).Encode(w) },
 		decode: func(r io.Reader) (any, error) { var x s2.Rect; err := x.Decode(r); return x, err },
+		decode2: func(r1, r2 io.Reader) (any, error) {
+			var x s2.Rect
+			_ = x.Decode(r1)
+			err := x.Decode(r2)
+			return x, err
+		},
 		equal: func(a, b any) string {
 			if !eqRect(a.(s2.Rect), b.(s2.Rect)) {
 				return "rect bounds differ"
@@ -275,6 +297,12 @@ var codecs = []*codecType{
 		draw:   func(g *gen.G) any { return g.Cell().ID() },
 		encode: func(v any, w io.Writer) error { return v.(s2.CellID).Encode(w) },
 		decode: func(r io.Reader) (any, error) { var x s2.CellID; err := x.Decode(r); return x, err },
+		decode2: func(r1, r2 io.Reader) (any, error) {
+			var x s2.CellID
+			_ = x.Decode(r1)
+			err := x.Decode(r2)
+			return x, err
+		},
 		equal: func(a, b any) string {
 			if a.(s2.CellID) != b.(s2.CellID) {
 				return "cell id differs"
@@ -296,6 +324,12 @@ var codecs = []*codecType{
 		draw:   func(g *gen.G) any { return g.Cell() },
 		encode: func(v any, w io.Writer) error { return v.(s2.Cell).Encode(w) },
 		decode: func(r io.Reader) (any, error) { var x s2.Cell; err := x.Decode(r); return x, err },
+		decode2: func(r1, r2 io.Reader) (any, error) {
+			var x s2.Cell
+			_ = x.Decode(r1)
+			err := x.Decode(r2)
+			return x, err
+		},
 		equal: func(a, b any) string {
 			x, y := a.(s2.Cell), b.(s2.Cell)
 			if x != y {
@@ -338,6 +372,12 @@ var codecs = []*codecType{
 		},
 		encode: func(v any, w io.Writer) error { cu := v.(s2.CellUnion); return cu.Encode(w) },
 		decode: func(r io.Reader) (any, error) { var x s2.CellUnion; err := x.Decode(r); return x, err },
+		decode2: func(r1, r2 io.Reader) (any, error) {
+			var x s2.CellUnion
+			_ = x.Decode(r1)
+			err := x.Decode(r2)
+			return x, err
+		},
 		equal: func(a, b any) string {
 			x, y := a.(s2.CellUnion), b.(s2.CellUnion)
 			if len(x) != len(y) {
@@ -380,7 +420,13 @@ var codecs = []*codecType{
 		},
 		encode: func(v any, w io.Writer) error { return v.(s2.Polyline).Encode(w) },
 		decode: func(r io.Reader) (any, error) { var x s2.Polyline; err := x.Decode(r); return x, err },
-		equal:  func(a, b any) string { return eqPoints(a.(s2.Polyline), b.(s2.Polyline)) },
+		decode2: func(r1, r2 io.Reader) (any, error) {
+			var x s2.Polyline
+			_ = x.Decode(r1)
+			err := x.Decode(r2)
+			return x, err
+		},
+		equal: func(a, b any) string { return eqPoints(a.(s2.Polyline), b.(s2.Polyline)) },
 		use: func(v any, pts []s2.Point, cells []s2.Cell) Ans {
 			p := v.(s2.Polyline)
 			a := Ans{uint64(len(p))}
@@ -410,7 +456,13 @@ var codecs = []*codecType{
 		},
 		encode: func(v any, w io.Writer) error { return v.(*s2.Loop).Encode(w) },
 		decode: func(r io.Reader) (any, error) { x := new(s2.Loop); err := x.Decode(r); return x, err },
-		equal:  func(a, b any) string { return eqLoop(a.(*s2.Loop), b.(*s2.Loop), true) },
+		decode2: func(r1, r2 io.Reader) (any, error) {
+			x := new(s2.Loop)
+			_ = x.Decode(r1)
+			err := x.Decode(r2)
+			return x, err
+		},
+		equal: func(a, b any) string { return eqLoop(a.(*s2.Loop), b.(*s2.Loop), true) },
 		use: func(v any, pts []s2.Point, cells []s2.Cell) Ans {
 			l := v.(*s2.Loop)
 			if l.NumVertices() > 200000 {
@@ -427,6 +479,12 @@ var codecs = []*codecType{
 		},
 		encode: func(v any, w io.Writer) error { return v.(*s2.Polygon).Encode(w) },
 		decode: func(r io.Reader) (any, error) { x := new(s2.Polygon); err := x.Decode(r); return x, err },
+		decode2: func(r1, r2 io.Reader) (any, error) {
+			x := new(s2.Polygon)
+			_ = x.Decode(r1)
+			err := x.Decode(r2)
+			return x, err
+		},
 		equal: func(a, b any) string {
 			x, y := a.(*s2.Polygon), b.(*s2.Polygon)
 			if x.NumLoops() != y.NumLoops() {
